@@ -252,6 +252,11 @@ class SBool(Sym):
     def __invert__(self):
         return SBool(z3.Not(self.t))
 
+    def __xor__(self, o):
+        return SBool(z3.Xor(self.t, B(o)))
+
+    __rxor__ = __xor__
+
     def __eq__(self, o):
         return SBool(self.t == B(o))
 
